@@ -552,6 +552,13 @@ def do_action(m, spec, act):
         m.loadParameters()
     elif a == 'factoryReset':
         m.factory_reset()
+    elif a == 'seterr':
+        # an update that carries no valid value: a read error, or a value the datatype refuses
+        if act.get('how') == 'invalid':
+            m.announceUpdate(act['name'], object())
+        else:
+            from frappy.errors import HardwareError
+            m.announceUpdate(act['name'], err=HardwareError('injected read error %s' % act.get('no', 0)))
 
 
 def step_record(bench, m, exc):
@@ -863,9 +870,12 @@ def gen_case(rng, spec, big):
         acts.append({'a': 'writeInit'})
     for _ in range(rng.randint(2, 9 if big else 6)):
         r = rng.random()
-        if r < 0.45 and names:
+        if r < 0.41 and names:
             p = rng.choice(pers or spec['params'])
             act = {'a': 'set', 'name': p['name'], 'val': gen_val(rng, p['dt'], valid=rng.random() < 0.85)}
+        elif r < 0.48 and names:
+            act = {'a': 'seterr', 'name': rng.choice(pers or spec['params'])['name'], 'how': rng.choice(['err', 'err', 'invalid']),
+                   'no': rng.randrange(2)}
         elif r < 0.65:
             act = {'a': 'save'}
         elif r < 0.8:
@@ -890,7 +900,7 @@ def place_faults(rng, spec, case):
     step saves after all because of an earlier fault).  What follows a failed save decides whether it "is attempted again by the
     next save instead of being considered done": after a failed *automatic* save (update of an `auto` parameter; the error is
     swallowed by announceUpdate) the history goes on, in 70 % of the cases, with 1-3 further updates of that same parameter and
-    nothing else - no explicit saveParameters(), no other parameter"""
+    nothing else (but, sometimes, an update without valid value) - no explicit saveParameters(), no other parameter"""
     dry = run_impl(spec, dict(case, fault=None), trials=False)['steps']
     if dry[0]['values'] is None:
         return
@@ -904,6 +914,8 @@ def place_faults(rng, spec, case):
             if act['a'] == 'set' and rng.random() < 0.7:
                 p = next(x for x in spec['params'] if x['name'] == act['name'])
                 for _ in range(rng.randint(1, 3)):
+                    if rng.random() < 0.2:
+                        out.append({'a': 'seterr', 'name': p['name'], 'how': rng.choice(['err', 'invalid']), 'no': rng.randrange(2)})
                     out.append({'a': 'set', 'name': p['name'], 'val': gen_val(rng, p['dt'], valid=rng.random() < 0.85)})
         elif not n and rng.random() < 0.08:
             act['fault'] = {'idx': rng.choice([0, 1, 2, 3, 5, 8]), 'part': rng.choice([0, 0.5, 1])}
@@ -944,6 +956,8 @@ def model_request(spec, case, ref, impl, tables):
             p = next(x for x in spec['params'] if x['name'] == act['name'])
             dt = ref['module'].parameters[act['name']].datatype
             a['val'] = repr(dt(to_py(p['dt'], act['val'])))
+        elif act['a'] == 'seterr':
+            a['name'] = act['name']
         acts.append(a)
     return {'p': 'C17', 'k': 'hist', 'tables': tables, 'params': params, 'wd0': wd0, 'file': case.get('file'),
             'stale': case.get('stale'), 'fault': fault_json(case.get('fault'), steps[0]), 'acts': acts}
